@@ -350,6 +350,29 @@ func (vc *FuncVC) trIdent(e *env, name string) Term {
 }
 
 func (vc *FuncVC) trBinary(e *env, n *EBinary) Term {
+	if n.Op == "&&" || n.Op == "||" {
+		// flatten a chain a && b && c ... into one n-ary term (a left-nested chain of binary terms
+		// re-copies the whole left operand at every level: quadratic for the long conjunctions of generated contracts)
+		var ops []Expr
+		var walk func(x Expr)
+		walk = func(x Expr) {
+			if b, ok := x.(*EBinary); ok && b.Op == n.Op {
+				walk(b.L)
+				walk(b.R)
+				return
+			}
+			ops = append(ops, x)
+		}
+		walk(n)
+		ts := make([]Term, 0, len(ops))
+		for _, o := range ops {
+			ts = append(ts, vc.tr(e, o))
+		}
+		if n.Op == "&&" {
+			return and(ts...)
+		}
+		return or(ts...)
+	}
 	l := vc.tr(e, n.L)
 	r := vc.tr(e, n.R)
 	switch n.Op {
@@ -669,6 +692,14 @@ func (vc *FuncVC) trCall(e *env, n *ECall) Term {
 					return vc.funcRef(fn, nil, nil)
 				}
 				return e.fail("unknown function %q", key)
+			}
+		case "asiface": // asiface(p, "*pkg.T"): the interface value holding pointer p with dynamic type *pkg.T
+			if st, ok := n.Args[1].(*EStr); ok {
+				t := vc.eng.typeByName(st.V)
+				if t == nil {
+					return e.fail("unknown type %q", st.V)
+				}
+				return T("Iface", fmt.Sprintf("(mkI %d %s)", vc.ss.typeTag(t), args[0].S))
 			}
 		case "arrof": // arrof(s): the backing array of a slice (to state that two slices do not share one)
 			if args[0].Sort != "Slice" {
